@@ -165,6 +165,51 @@ func Hist(name string) *ref.History {
 			[]*ref.AEvent{ref.Q(1600000025, "db1", "DROP TABLE t2")})}}}
 	case "H8":
 		h = hist8(cfg)
+	case "H10":
+		// a long stream of small events behind kept transactions: 90 single-row
+		// inserts of ~1.1 KB (a recycled receive / copy arena of some tens of KB
+		// wraps around several times)
+		t10 := &ref.Table{ID: 140, DB: "db1", Name: "t10", Flags: 1, Cols: []ref.Column{
+			ref.ColInt(ref.TLong, "id", false), ref.ColVarchar("payload", 2000), ref.ColBlob("b", 2)}}
+		var evs []*ref.AEvent
+		ts := uint32(1600000000)
+		for i := 0; i < 90; i++ {
+			tag := byte('a' + i%26)
+			evs = append(evs, ref.Q(ts, "db1", "BEGIN"), ref.TM(ts, t10),
+				ref.R(ts, ref.RowWrite, t10, ref.RowChange{After: ref.Image{ref.VInt(ref.TLong, int64(i), false),
+					ref.VVarchar(2000, append([]byte(fmt.Sprintf("row-%03d:", i)), bytes.Repeat([]byte{tag}, 1000)...)),
+					ref.VBlob(2, bytes.Repeat([]byte{tag ^ 0x20}, 60))}}),
+				ref.X(ts+1, uint64(100+i)))
+			ts += 2
+		}
+		h = &ref.History{Cfg: cfg, Files: []*ref.File{{Name: f1, Events: evs}}}
+	case "H11":
+		// temporal and decimal values that share their leading part: the same
+		// second with different fractions, in the two images of an UPDATE, in
+		// two rows of one event and in consecutive transactions (a decoder that
+		// memoises the text of the last second / the last value shows here)
+		t11 := &ref.Table{ID: 141, DB: "db1", Name: "t11", Flags: 1, Cols: []ref.Column{
+			ref.ColInt(ref.TLong, "id", false),
+			ref.ColFsp(ref.TDateTime2, "dt3", 3), ref.ColFsp(ref.TTimestamp2, "ts3", 3), ref.ColFsp(ref.TTime2, "ti3", 3),
+			ref.ColFsp(ref.TDateTime2, "dt0", 0), ref.ColFsp(ref.TTimestamp2, "ts0", 0),
+			ref.ColDecimal("de", 20, 4), ref.ColPlain(ref.TTimestamp, "tso"), ref.ColPlain(ref.TDateTime, "dto")}}
+		row := func(id int64, ms int) ref.Image {
+			return ref.Image{ref.VInt(ref.TLong, id, false),
+				ref.VDateTimeFsp(3, 2012, 6, 21, 15, 45, 17, ms*1000), ref.VTimestamp2(3, 1490106309, ms*1000, time.Local), ref.VTime2(3, false, 15, 45, 17, ms*1000),
+				ref.VDateTimeFsp(0, 2012, 6, 21, 15, 45, 17, 0), ref.VTimestamp2(0, 1490106309, 0, time.Local),
+				ref.VDecimal(20, 4, fmt.Sprintf("1234567890.%04d", ms)), ref.VTimestampOld(1490106309, time.Local), ref.VDateTimeOld(2012, 6, 21, 15, 45, 17)}
+		}
+		h = &ref.History{Cfg: cfg, Files: []*ref.File{{Name: f1, Events: cat(
+			[]*ref.AEvent{ref.Q(1600000000, "db1", "BEGIN"), ref.TM(1600000000, t11),
+				ref.R(1600000000, ref.RowWrite, t11, ref.RowChange{After: row(1, 0)}, ref.RowChange{After: row(2, 765)}, ref.RowChange{After: row(3, 123)}),
+				ref.X(1600000001, 51)},
+			[]*ref.AEvent{ref.Q(1600000010, "db1", "BEGIN"), ref.TM(1600000010, t11),
+				ref.R(1600000010, ref.RowUpdate, t11, ref.RowChange{Before: row(2, 765), After: row(2, 100)}, ref.RowChange{Before: row(3, 123), After: row(3, 900)}),
+				ref.X(1600000011, 52)},
+			[]*ref.AEvent{ref.Q(1600000020, "db1", "BEGIN"), ref.TM(1600000020, t11),
+				ref.R(1600000020, ref.RowDelete, t11, ref.RowChange{Before: row(2, 100)}),
+				ref.R(1600000020, ref.RowWrite, t11, ref.RowChange{After: row(4, 999)}),
+				ref.X(1600000021, 53)})}}}
 	default:
 		panic("unknown history " + name)
 	}
